@@ -22,7 +22,7 @@ EXHAUSTIVE = True
 RULE = (
     "metric laws: grids {(2),(3),(6),(2,2),(2,3),(3,3),(3,4),(2,2,2)} x voxel sizes {unit, dyadic anisotropic} x mass pairs (ALL ordered pairs of "
     "compositions of 2 quanta on grids <= 6 cells; single-cell moves and two-blob pairs elsewhere) x {Newton, Bregman} x L1/mobility modes x "
-    "scalings {0.25,2,3,10} x constant weights {0.5,2,3}; thin grids: all 1-D grids with n in {2,3,5,8,13,21,40} and n x 1, 1 x n, n x 1 x 1 up to 13 "
+    "scalings {0.25,2,3,10} x constant weights {0.5,2,3}; thin grids: all 1-D grids with n in {2,3,5,8,13,21,40} and n x 1, 1 x n, n x 1 x 1, 1 x n x 1, 1 x 1 x n up to 13 "
     "x every method x every L1 x mobility mode x num_iter {1,2,6} x formulation {full, pressure}; discrete minimum: grids with <= 5 independent cycles "
     "x 3 L1 modes; dispatch: 3 methods; EMD: ALL ordered single-cell moves on 3x4 and 2x5 x 3 voxel-size pairs + quanta alphabet laws. "
     "Non-trivial = pair with source != destination; distinct = distinct (grid, masses, options)."
@@ -57,7 +57,7 @@ def cases(tier):
     # --- thin grids
     thin = [(n,) for n in THIN_1D[tier]]
     for n in THIN_N[tier]:
-        thin += [(n, 1), (1, n), (n, 1, 1)]
+        thin += [(n, 1), (1, n), (n, 1, 1), (1, n, 1), (1, 1, n)]
     for shape in thin:
         for method in c04.METHODS:
             for vsk in ("aniso",) if tier == "quick" else ("unit", "aniso"):
@@ -295,6 +295,9 @@ def run_emd(case, r):
     cells = list(np.ndindex(*shape))
     emd = darsia.EMD()
     vol = float(np.prod(vs))
+    # non-initial process state: the same pixel shape has been evaluated before with OTHER voxel sizes
+    other_vs = [vs[1] * 2.0, vs[0] * 0.5]
+    darsia.EMD()(Wh.make_image(Wh.single_cell(shape, cells[0]), other_vs), Wh.make_image(Wh.single_cell(shape, cells[-1]), other_vs))
     for c1, c2 in itertools.product(cells, cells):
         for amount in (1.0, 3.0):
             a, b = Wh.single_cell(shape, c1, amount), Wh.single_cell(shape, c2, amount)
